@@ -234,6 +234,11 @@ class Check(FormulaCheck):
                 def fn(*a, _nm=nm, _ret=ret):
                     log.append((_nm, a))
                     return _ret
+                if rnd.random() < 0.35:
+                    # the parser has already met this name (as a built-in, or as an unknown name) before the host registers its function
+                    p.parse('%s(1)' % nm)
+                    p.parse('%s(1,2)+1' % nm)
+                    rec.count('registered_after_the_name_was_already_called')
                 shape = rnd.random()
                 if shape < 0.15:
                     reg = FalsyCallable(fn, 'bool')
